@@ -365,11 +365,13 @@ def minimize_oc(function, variables, objective: Signal,
         # Enlarge the multiplier interval until it brackets the volume constraint (needed for large sensitivities)
         lower, upper = np.maximum(xmin, xval-move), np.minimum(xmax, xval+move)
         xnew = np.clip(xval * np.sqrt(-dfdx / l2), lower, upper)
-        while np.sum(xnew) - maxvol > 0 and np.any(xnew > lower) and l2 < 1e300:
+        while np.sum(xnew) - maxvol > 0 and np.any(xnew > lower) and l2 < 1e40:
             l2 *= 10
             xnew = np.clip(xval * np.sqrt(-dfdx / l2), lower, upper)
         while l2 - l1 > l1l2tol:
             lmid = 0.5 * (l1 + l2)
+            if lmid <= l1 or lmid >= l2:  # No representable midpoint left: the interval cannot shrink any further
+                break
             xnew = np.clip(xval * np.sqrt(-dfdx / lmid), np.maximum(xmin, xval-move), np.minimum(xmax, xval+move))
             l1, l2 = (lmid, l2) if np.sum(xnew) - maxvol > 0 else (l1, lmid)
 
